@@ -49,12 +49,13 @@ type Line struct {
 	ID     int           `json:"id"`
 	Source int           `json:"src"`
 	Stream string        `json:"stream"`
-	Dirs   []string      `json:"dirs,omitempty"`  // directive for action i ("", pass, discard, break)
-	Msg    string        `json:"msg,omitempty"`   // join field: "S.." start, "C.." continuation, other = plain
-	Kids   int           `json:"kids,omitempty"`  // >0: array field for the split action
-	Drop   bool          `json:"drop,omitempty"`  // matched by the real discard action
-	NoSel  bool          `json:"nosel,omitempty"` // the event does not satisfy the join action's selector (match_fields / do_if)
-	Bad    int           `json:"bad,omitempty"`   // 1 undecodable, 2 empty line
+	Dirs   []string      `json:"dirs,omitempty"`   // directive for action i ("", pass, discard, break)
+	Msg    string        `json:"msg,omitempty"`    // join field: "S.." start, "C.." continuation, other = plain
+	Kids   int           `json:"kids,omitempty"`   // >0: array field for the split action
+	Drop   bool          `json:"drop,omitempty"`   // matched by the real discard action
+	NoSel  bool          `json:"nosel,omitempty"`  // the event does not satisfy the join action's selector (match_fields / do_if)
+	Reject bool          `json:"reject,omitempty"` // the input's PassEvent refuses it (as the file input does for offsets already committed)
+	Bad    int           `json:"bad,omitempty"`    // 1 undecodable, 2 empty line
 	Pause  time.Duration `json:"pause,omitempty"`
 }
 
@@ -195,6 +196,8 @@ func (h *H) Gen(rng *rand.Rand, tier, prop string) core.Cfg {
 		}
 		if core.Chance(rng, 0.03) {
 			l.Bad = core.Between(rng, 1, 2)
+		} else if core.Chance(rng, 0.06) {
+			l.Reject = true
 		}
 		switch {
 		case core.Chance(rng, 0.7):
@@ -350,6 +353,7 @@ type ev struct {
 	finStep  int
 	commits  []int // steps
 	commitT  []time.Duration
+	rejected bool
 	kidsSent int
 	kidsSeen int
 	kidsDLQ  int
@@ -379,6 +383,7 @@ type run struct {
 	pendingKids               map[sinkBatch][]*ev
 	kidParent                 map[*pipeline.Event]*ev // child event of a split -> its parent, fixed when the child reaches the main output
 	parentDoneKidsInDLQ       bool                    // a split parent was committed while children of it were pending in the dead queue
+	idleReported              bool
 	capFreeAt                 map[int]time.Duration
 	frontierExercised         bool
 	sawDLQPendingAtMainCommit bool
@@ -437,6 +442,12 @@ func (in *input) PassEvent(e *pipeline.Event) bool {
 	}
 	if old := r.byPtr[e]; old != nil && old != x {
 		r.viol("C05", "event-object-handed-out-twice", "event object %p given to id %d while id %d (bound at step %d, not finalized) still owns it", e, x.line.ID, old.line.ID, old.passStep)
+	}
+	if x.line.Reject {
+		// refused by the input: the pipeline returns the event to the pool (once) and In reports no sequence number
+		x.rejected = true
+		r.probes["passevent-rejected"]++
+		return false
 	}
 	if x.bound {
 		r.viol("C05", "id-passed-twice", "id %d passed twice", x.line.ID)
@@ -965,6 +976,19 @@ func (h *H) Run(cc core.Cfg, sim *simrt.Sim) *core.Outcome {
 			p.SetDeadQueueOutput(&pipeline.OutputPluginInfo{PluginStaticInfo: &pipeline.PluginStaticInfo{Type: "simdlq"}, PluginRuntimeInfo: &pipeline.PluginRuntimeInfo{Plugin: &simsink.Plugin{Cfg: *cfg.DLQ, Obs: r, Ctx: ctx}}})
 		}
 		p.Start()
+		sim.SetOnIdle(func() {
+			// C04 "a processor asleep while work is queued": nothing can run at this instant, so a stream that
+			// is still charged has nobody coming for it if a processor sleeps on the streamer's condition
+			if r.idleReported {
+				return
+			}
+			if n, c := pipeline.VerifCharged(p); n > 0 {
+				if cond, ok := c.(*simrt.Cond); ok && cond.Waiters() > 0 {
+					r.idleReported = true
+					r.viol("C04", "processor-asleep-while-stream-charged", "at %v nothing is runnable, %d streams are charged (pending events, no processor attached) and %d processors sleep waiting for a charged stream; streamer: %s", simrt.SimNow(), n, cond.Waiters(), r.dumpShort())
+				}
+			}
+		})
 		for rd, lines := range cfg.Readers {
 			rd, lines := rd, lines
 			simrt.Go(fmt.Sprintf("reader%d", rd), func() {
@@ -1097,7 +1121,7 @@ func (r *run) evaluate() {
 			if x.inRet && x.seq != 0 {
 				r.viol("C02", "accepted-without-passevent", "id %d accepted (seq %d) but never shown to the input's PassEvent", x.line.ID, x.seq)
 			}
-			if x.inRet && x.line.Bad == 0 && x.seq == 0 {
+			if x.inRet && x.line.Bad == 0 && x.seq == 0 && !x.rejected {
 				r.viol("C05", "dropped-instead-of-blocking", "In refused a well-formed record (id %d) although nothing allows refusing it", x.line.ID)
 			}
 			continue
